@@ -73,6 +73,9 @@ def g_test(r, axis, names):
     return ['pi', r.choice([None, None, 'tgt', 'pi'])]
 
 
+POSITIONAL = ('num', 'last', 'lastminus', 'pos')
+
+
 def g_pred(r, names, depth):
     x = r.random()
     if x < 0.25:
@@ -101,8 +104,19 @@ def g_pred(r, names, depth):
 def g_step(r, names, depth, first=False):
     axis = r.choice(AXIS_POOL)
     test = g_test(r, axis, names)
-    npred = r.choice([0, 0, 0, 1, 1, 2]) if depth < 2 else r.choice([0, 0, 1])
+    npred = r.choice([0, 0, 0, 1, 1, 2, 3, 4]) if depth < 2 else r.choice([0, 0, 1])
     preds = [g_pred(r, names, depth) for _ in range(npred)]
+    if npred >= 3:
+        # long predicate chains: non-positional filters first, a positional one last (the direction of the step
+        # must still hold for the n-th predicate of a reverse axis step)
+        always = ['path', {'abs': '', 'steps': [{'axis': 'self', 'test': ['node'], 'preds': [], 'abbr': False}]}]
+        fillers = [always, always, ['not', ['attr', 'q']], ['not', ['attr', 's']], ['attr', 'n']]
+        preds = [p if i == npred - 1 else r.choice(fillers) for i, p in enumerate(preds)]
+        if r.random() < 0.6:
+            axis = r.choice(['ancestor', 'ancestor-or-self', 'preceding', 'preceding-sibling'])
+            test = g_test(r, axis, names) if r.random() < 0.5 else ['*']
+        if r.random() < 0.6:
+            preds[-1] = r.choice([['num', 1], ['num', 2], ['last'], ['pos', '<=', 2]])
     step = {'axis': axis, 'test': test, 'preds': preds, 'abbr': r.random() < 0.6}
     if axis == 'attribute' and test[0] == 'node' and r.random() < 0.9:
         step['abbr'] = False      # '@node()' is rejected by the parsers (listed finding): keep it rare
@@ -122,9 +136,6 @@ def g_path(r, names, depth=0, rel=False, maxsteps=4):
         else:
             steps.append(g_step(r, names, depth, first=(i == 0)))
     return {'abs': ab, 'steps': steps}
-
-
-POSITIONAL = ('num', 'last', 'lastminus', 'pos')
 
 
 def _uses_position(p):
